@@ -209,6 +209,12 @@ func famTablesPar(mode string, args []string) error {
 		return tpRecord(args)
 	case "repeat":
 		return tpRepeat(args)
+	case "repeatbig":
+		return tpRepeatBig(args)
+	case "stress":
+		return tpStress(args)
+	case "recordbig":
+		return tpRecordBig(args)
 	case "genfiles":
 		// genfiles <dir> <n>: write n generated inputs, print their paths as JSON
 		if len(args) < 2 {
@@ -304,45 +310,268 @@ func tpRecord(args []string) error {
 		rng := newRand(int64(t))
 		c := &tpCase{ID: t, NTables: 2, Rows: []string{"r1", "r2", "r3"}, Cols: []string{"c1", "c2", "c3"}, Sparse: true}
 		results := tpResults(c, rng)
-		gp := procs[t%len(procs)]
-		old := runtime.GOMAXPROCS(gp)
-		g := &tpGate{tables: map[*benchtab.Table]int{}}
-		g.cond = sync.NewCond(&g.mu)
-		benchtab.VerifHook = g.hook
-		b, err := tpBuild(results)
-		if err != nil {
+		if err := tpRecordRun(ew, t, results, procs[t%len(procs)], false); err != nil {
 			return err
-		}
-		_, err = tpRender(b)
-		benchtab.VerifHook = nil
-		runtime.GOMAXPROCS(old)
-		if err != nil {
-			return err
-		}
-		// the shape of the run (for the trace specifications that take it from the trace)
-		cells, colws := [][]interface{}{}, [][]interface{}{}
-		for _, e := range g.events {
-			w := e["w"].(tpW)
-			switch e["ev"] {
-			case "cell.spawn":
-				cells = append(cells, []interface{}{w.T, w.R, w.C})
-			case "col.spawn":
-				colws = append(colws, []interface{}{w.T, w.C})
-			}
-		}
-		base := make([]string, len(g.tables))
-		for tb, no := range g.tables {
-			if len(tb.Cols) > 0 {
-				base[no-1] = tpKeyName(tb.Cols[0])
-			}
-		}
-		ew.emit(map[string]interface{}{"ev": "reset", "t": t, "limit": 2 * gp, "nt": len(g.tables), "cells": cells, "cols": colws, "base": base})
-		for _, e := range g.events {
-			e["t"] = t
-			ew.emit(e)
 		}
 	}
 	ew.emit(map[string]interface{}{"ev": "reset", "t": -1, "limit": 0, "nt": 1, "cells": [][]interface{}{}, "cols": [][]interface{}{}, "base": []string{"-"}})
+	return ew.close()
+}
+
+// tpRecordRun observes one un-imposed run of ToTables at the given GOMAXPROCS and writes its
+// events, preceded by the reset event that carries the shape of the run.
+func tpRecordRun(ew *eventWriter, t int, results []*benchfmt.Result, gp int, dyn bool) error {
+	old := runtime.GOMAXPROCS(gp)
+	g := &tpGate{tables: map[*benchtab.Table]int{}}
+	g.cond = sync.NewCond(&g.mu)
+	benchtab.VerifHook = g.hook
+	b, err := tpBuild(results)
+	if err != nil {
+		benchtab.VerifHook = nil
+		runtime.GOMAXPROCS(old)
+		return err
+	}
+	_, err = tpRender(b)
+	benchtab.VerifHook = nil
+	runtime.GOMAXPROCS(old)
+	if err != nil {
+		return err
+	}
+	if dyn {
+		return tpEmitDyn(ew, t, g, gp)
+	}
+	// the shape of the run (for the trace specifications that take it from the trace)
+	cells, colws := [][]interface{}{}, [][]interface{}{}
+	for _, e := range g.events {
+		w := e["w"].(tpW)
+		switch e["ev"] {
+		case "cell.spawn":
+			cells = append(cells, []interface{}{w.T, w.R, w.C})
+		case "col.spawn":
+			colws = append(colws, []interface{}{w.T, w.C})
+		}
+	}
+	base := make([]string, len(g.tables))
+	for tb, no := range g.tables {
+		if len(tb.Cols) > 0 {
+			base[no-1] = tpKeyName(tb.Cols[0])
+		}
+	}
+	ew.emit(map[string]interface{}{"ev": "reset", "t": t, "limit": 2 * gp, "nt": len(g.tables), "cells": cells, "cols": colws, "base": base})
+	for _, e := range g.events {
+		e["t"] = t
+		ew.emit(e)
+	}
+	return nil
+}
+
+// tpEmitDyn writes a recorded run in the vocabulary of TablesParDyn_trace (the one the recorder
+// overlaid into cmd/benchstat's tests uses): rows and columns are numbered per table in order of
+// first appearance, column workers have row 0, the other events carry r = c = 0.
+func tpEmitDyn(ew *eventWriter, t int, g *tpGate, gp int) error {
+	nt := len(g.tables)
+	rows := make([]map[string]int, nt+1)
+	cols := make([]map[string]int, nt+1)
+	for i := range rows {
+		rows[i], cols[i] = map[string]int{}, map[string]int{}
+	}
+	no := func(m map[string]int, k string) int {
+		if n, ok := m[k]; ok {
+			return n
+		}
+		m[k] = len(m) + 1
+		return m[k]
+	}
+	cells, colws := [][]int{}, [][]int{}
+	var evs []map[string]interface{}
+	for _, e := range g.events {
+		w := e["w"].(tpW)
+		ev := e["ev"].(string)
+		ow := map[string]interface{}{"kind": "main", "t": w.T, "r": 0, "c": 0}
+		switch {
+		case ev == "table":
+			ow["kind"] = "table"
+		case strings.HasPrefix(ev, "cell."):
+			r, c := no(rows[w.T], w.R), no(cols[w.T], w.C)
+			ow = map[string]interface{}{"kind": "cell", "t": w.T, "r": r, "c": c}
+			if ev == "cell.spawn" {
+				cells = append(cells, []int{w.T, r, c})
+			}
+		case strings.HasPrefix(ev, "col."):
+			c := no(cols[w.T], w.C)
+			ow = map[string]interface{}{"kind": "col", "t": w.T, "r": 0, "c": c}
+			if ev == "col.spawn" {
+				colws = append(colws, []int{w.T, c})
+			}
+		}
+		evs = append(evs, map[string]interface{}{"ev": ev, "w": ow, "t": t})
+	}
+	base := make([]int, nt)
+	for tb, n := range g.tables {
+		base[n-1] = 1
+		if len(tb.Cols) > 0 {
+			base[n-1] = no(cols[n], tpKeyName(tb.Cols[0]))
+		}
+	}
+	ew.emit(map[string]interface{}{"ev": "reset", "t": t, "limit": 2 * gp, "nt": nt, "cells": cells, "cols": colws, "base": base})
+	for _, e := range evs {
+		ew.emit(e)
+	}
+	return nil
+}
+
+// ---------------------------------------------------------------- big shapes
+//
+// Everything above runs ToTables on at most 2 x 3 x 3 cells, i.e. never with more cells than
+// the fan-out bound 2*GOMAXPROCS admits at GOMAXPROCS >= 5, and with a handful of results per
+// cell.  The drivers below use MANY cells (far more than 2*GOMAXPROCS, so that a cell worker is
+// started while earlier ones are still running and the semaphore is saturated all the time),
+// cells of very different weight (2 .. 300 results, so that workers overtake each other), large
+// residue sets (every result of a cell has its own `run` value) and different cells varying in
+// different keys.
+
+// tpBigResults: nt units x nr names x nc values of `col`; cell (r, c) merges R(r,c) results
+// that all differ in `run` and, besides, in key k<(r+c)%4> only.
+func tpBigResults(rng *rand.Rand, nt, nr, nc int, sparse bool) []*benchfmt.Result {
+	var out []*benchfmt.Result
+	for c := 0; c < nc; c++ {
+		for r := 0; r < nr; r++ {
+			n := 2 + rng.Intn(12)
+			if (r*7+c*3)%5 == 0 {
+				n = 120 + rng.Intn(180)
+			}
+			vk := (r + c) % 4
+			for i := 0; i < n; i++ {
+				res := &benchfmt.Result{Name: benchfmt.Name(fmt.Sprintf("B%d", r)), Iters: 1}
+				res.Config = []benchfmt.Config{
+					{Key: "col", Value: []byte(fmt.Sprintf("c%d", c)), File: true},
+					{Key: "run", Value: []byte(fmt.Sprintf("%d", i)), File: true},
+				}
+				for k := 0; k < 4; k++ {
+					v := "x"
+					if k == vk {
+						v = fmt.Sprintf("v%d", i%3)
+					}
+					res.Config = append(res.Config, benchfmt.Config{Key: fmt.Sprintf("k%d", k), Value: []byte(v), File: true})
+				}
+				for t := 1; t <= nt; t++ {
+					if sparse && t == 1 && ((r == nr-1 && c == 0) || (r == 0 && c == nc-1)) {
+						continue
+					}
+					v := float64(100*t+10*r) + float64(rng.Intn(50)) + float64(c)
+					res.Values = append(res.Values, benchfmt.Value{Value: v, Unit: fmt.Sprintf("u%d/op", t)})
+				}
+				if len(res.Values) > 0 {
+					out = append(out, res)
+				}
+			}
+		}
+	}
+	// results of different cells arrive interleaved (the first result stays: it fixes the baseline column)
+	rest := out[1:]
+	rng.Shuffle(len(rest), func(a, b int) { rest[a], rest[b] = rest[b], rest[a] })
+	return out
+}
+
+// tpStress: un-imposed runs of ToTables on big shapes at GOMAXPROCS 2, 16, 3, 4, 8, 1; text and
+// CSV must equal, byte for byte, those of the run at GOMAXPROCS 1 (where the workers run one
+// after the other).  Run in the -race build as well: there the race detector judges the
+// accesses of workers that overlap because the semaphore admitted them.  args: n out.json
+func tpStress(args []string) error {
+	if len(args) < 2 {
+		return fmt.Errorf("stress <n> <out.json>")
+	}
+	n, _ := strconv.Atoi(args[0])
+	type rep struct {
+		Runs     int      `json:"runs"`
+		MaxCells int      `json:"max_cells"`
+		Failures []string `json:"failures"`
+	}
+	var r rep
+	defer runtime.GOMAXPROCS(runtime.GOMAXPROCS(-1))
+	for i := 0; i < n; i++ {
+		rng := newRand(int64(5000 + i))
+		nt, nr, nc := 1+rng.Intn(3), 10+rng.Intn(30), 2+rng.Intn(4)
+		results := tpBigResults(rng, nt, nr, nc, i%2 == 1)
+		if nt*nr*nc > r.MaxCells {
+			r.MaxCells = nt * nr * nc
+		}
+		benchtab.VerifHook = nil
+		runtime.GOMAXPROCS(1)
+		b0, err := tpBuild(results)
+		if err != nil {
+			return err
+		}
+		ref, err := tpRender(b0)
+		if err != nil {
+			return err
+		}
+		r.Runs++
+		for k, gp := range []int{2, 16, 3, 4, 8, 1, 2} {
+			runtime.GOMAXPROCS(gp)
+			b1, err := tpBuild(results)
+			if err != nil {
+				return err
+			}
+			got, err := tpRender(b1)
+			if err != nil {
+				return err
+			}
+			r.Runs++
+			if got != ref {
+				r.Failures = append(r.Failures, fmt.Sprintf("shape %d (%d units x %d rows x %d columns, %d results): run %d at GOMAXPROCS=%d differs from the run at GOMAXPROCS=1: %s",
+					i, nt, nr, nc, len(results), k, gp, tpFirstDiff(ref, got)))
+			}
+		}
+	}
+	data, _ := json.Marshal(r)
+	return os.WriteFile(args[1], data, 0o644)
+}
+
+func tpFirstDiff(a, b string) string {
+	la, lb := strings.Split(a, "\n"), strings.Split(b, "\n")
+	for i := 0; i < len(la) || i < len(lb); i++ {
+		x, y := "<none>", "<none>"
+		if i < len(la) {
+			x = la[i]
+		}
+		if i < len(lb) {
+			y = lb[i]
+		}
+		if x != y {
+			if len(x) > 300 {
+				x = x[:300]
+			}
+			if len(y) > 300 {
+				y = y[:300]
+			}
+			return fmt.Sprintf("line %d: %q vs %q", i+1, x, y)
+		}
+	}
+	return "no difference"
+}
+
+// tpRecordBig: hook traces of un-imposed runs on shapes with 50-100 cell workers at
+// GOMAXPROCS 1, 2, 3 (fan-out bound 2, 4, 6: saturated throughout).  args: out.ndjson n
+func tpRecordBig(args []string) error {
+	if len(args) < 2 {
+		return fmt.Errorf("recordbig <out> <n>")
+	}
+	n, _ := strconv.Atoi(args[1])
+	ew, err := newEventWriter(args[0])
+	if err != nil {
+		return err
+	}
+	procs := []int{2, 1, 3, 2}
+	for t := 0; t < n; t++ {
+		rng := newRand(int64(7000 + t))
+		nr, nc := 5+rng.Intn(4), 4+rng.Intn(3)
+		results := tpBigResults(rng, 2, nr, nc, t%2 == 0)
+		if err := tpRecordRun(ew, t, results, procs[t%len(procs)], true); err != nil {
+			return err
+		}
+	}
+	ew.emit(map[string]interface{}{"ev": "reset", "t": -1, "limit": 0, "nt": 1, "cells": [][]interface{}{}, "cols": [][]interface{}{}, "base": []int{1}})
 	return ew.close()
 }
 
@@ -360,70 +589,318 @@ func tpRepeat(args []string) error {
 		return err
 	}
 	defer os.RemoveAll(dir)
-	type rep struct {
-		Runs     int      `json:"runs"`
-		Inputs   int      `json:"inputs"`
-		Failures []string `json:"failures"`
-		Sample   string   `json:"sample"`
-	}
-	var r rep
+	var r tpRep
+	gps := []string{"1", "2", "16", "4", "1", "8", "3"}
 	for i := 0; i < n; i++ {
 		rng := newRand(int64(1000 + i))
 		files := tpGenFiles(rng, dir, i, false)
-		r.Inputs++
-		for _, flags := range [][]string{nil, {"-row", ".name,/k", "-col", "goos"}, {"-table", "goos,cpu", "-row", ".name,/x,/k"}} {
-			for _, format := range []string{"text", "csv"} {
-				var ref []byte
-				for k, gp := range []string{"1", "2", "16", "4", "1", "8", "3"} {
-					so, se, err := tpBenchstat(bin, append(append([]string{"-format", format}, flags...), files...), append(os.Environ(), "GOMAXPROCS="+gp))
-					out := []byte(so + se)
-					if err == errTpTimeout {
-						r.Failures = append(r.Failures, fmt.Sprintf("input %d flags %v format %s: benchstat did not terminate (20 s / 8 GB) at GOMAXPROCS=%s; files %v", i, flags, format, gp, files))
-						break
-					}
-					if err != nil {
-						return fmt.Errorf("benchstat: %v\n%s", err, out)
-					}
-					r.Runs++
-					if k == 0 {
-						ref = out
-						if r.Sample == "" {
-							r.Sample = string(out)
-						}
-					} else if !bytes.Equal(ref, out) {
-						r.Failures = append(r.Failures, fmt.Sprintf("input %d flags %v format %s: run %d (GOMAXPROCS=%s) differs from the first run", i, flags, format, k, gp))
-					}
-				}
-			}
-		}
 		// permuting benchmark lines inside each configuration block: rows may
 		// move, cell contents may not -> compare the CSV as a set of lines per table
 		rng2 := newRand(int64(1000 + i))
 		files2 := tpGenFiles(rng2, dir, i, true)
-		for _, flags := range [][]string{nil, {"-table", "pkg", "-row", ".name"}, {"-row", ".name,/k", "-col", "goos"}} {
-			run := func(fs []string) (string, string, error) {
-				return tpBenchstat(bin, append(append([]string{"-format", "csv"}, flags...), fs...), nil)
-			}
-			a, wa, err1 := run(files)
-			b, wb, err2 := run(files2)
-			if err1 == errTpTimeout || err2 == errTpTimeout {
-				r.Failures = append(r.Failures, fmt.Sprintf("input %d flags %v: benchstat did not terminate (20 s / 8 GB)", i, flags))
-				continue
-			}
-			if err1 != nil || err2 != nil {
-				return fmt.Errorf("benchstat %v: %v %v", flags, err1, err2)
-			}
-			r.Runs += 2
-			if d := tpCellDiff(a, b, files, files2); d != "" {
-				r.Failures = append(r.Failures, fmt.Sprintf("input %d flags %v: permuting result lines changed cell content: %s", i, flags, d))
-			}
-			if d := tpCellDiff(tpWarnings(a, wa), tpWarnings(b, wb), files, files2); d != "" {
-				r.Failures = append(r.Failures, fmt.Sprintf("input %d flags %v: permuting result lines changed a cell's warnings: %s", i, flags, d))
-			}
+		err := tpRepeatInput(bin, &r, fmt.Sprintf("input %d", i), files, files2, gps,
+			[][]string{nil, {"-row", ".name,/k", "-col", "goos"}, {"-table", "goos,cpu", "-row", ".name,/x,/k"}},
+			[][]string{nil, {"-table", "pkg", "-row", ".name"}, {"-row", ".name,/k", "-col", "goos"}})
+		if err != nil {
+			return err
 		}
 	}
 	data, _ := json.Marshal(r)
 	return os.WriteFile(args[2], data, 0o644)
+}
+
+// tpRepeatBig: the same comparisons on LARGE inputs (args: benchstat-binary n outfile); input i is
+// of kind i%4:
+//
+//	0 "names"  1030..1600 distinct benchmarks (more than any table of 1024 entries holds), printed in
+//	           3-4 passes as `go test -count N` does, in two files with different subsets
+//	1 "sweep"  five benchmarks measured in 1030..1400 runs that each have their own `run` value, the
+//	           `commit` changing every 100 runs (long history; > 1024 distinct configurations)
+//	3 "units"  30-45 benchmarks with 1..70 runs each and 90 custom units with scale prefixes
+//	2 "grid"   30-45 benchmarks x 2 files x 2 units (more cells than 2*GOMAXPROCS at every setting used),
+//	           cells of very different size whose results all differ in `run` and, besides, in ONE of
+//	           four keys that depends on the benchmark
+func tpRepeatBig(args []string) error {
+	if len(args) < 3 {
+		return fmt.Errorf("repeatbig <benchstat> <n> <out.json>")
+	}
+	bin := args[0]
+	n, _ := strconv.Atoi(args[1])
+	dir, err := os.MkdirTemp(os.Getenv("VERIF_WORK"), "tpbig")
+	if err != nil {
+		return err
+	}
+	defer os.RemoveAll(dir)
+	var r tpRep
+	gps := []string{"1", "2", "16", "4", "1", "3"}
+	for i := 0; i < n; i++ {
+		kind := []string{"names", "sweep", "grid", "units"}[i%4]
+		files, nl := tpGenBig(newRand(int64(3000+i)), dir, i, kind, false)
+		files2, _ := tpGenBig(newRand(int64(3000+i)), dir, i, kind, true)
+		if nl > r.Lines {
+			r.Lines = nl
+		}
+		var flagsets, permFlagsets [][]string
+		switch kind {
+		case "names":
+			flagsets = [][]string{nil, {"-row", ".name", "-col", ".file,/k"}}
+			permFlagsets = [][]string{nil, {"-table", "pkg", "-row", ".fullname"}}
+		case "sweep":
+			flagsets = [][]string{{"-ignore", "run"}, {"-table", "", "-row", ".fullname"}, {"-table", "commit", "-row", ".name", "-col", ".file"}}
+			permFlagsets = [][]string{{"-ignore", "run"}, {"-table", "", "-row", ".fullname"}}
+		case "grid":
+			flagsets = [][]string{{"-table", ""}, {"-table", "goos", "-ignore", "run"}}
+			permFlagsets = [][]string{{"-table", ""}, {"-table", "", "-ignore", "k1,k2"}}
+		case "units":
+			flagsets = [][]string{nil, {"-row", ".name", "-col", ".file,/k"}}
+			permFlagsets = [][]string{nil}
+		}
+		g := gps
+		if kind == "units" {
+			g = []string{"1", "16", "3"}
+		}
+		if err := tpRepeatInput(bin, &r, fmt.Sprintf("big input %d (%s, %d lines)", i, kind, nl), files, files2, g, flagsets, permFlagsets); err != nil {
+			return err
+		}
+	}
+	data, _ := json.Marshal(r)
+	return os.WriteFile(args[2], data, 0o644)
+}
+
+// tpGenBig writes the files of one big input; with permute the benchmark lines of every
+// configuration block are shuffled.  Returns the paths and the total number of lines.
+func tpGenBig(rng *rand.Rand, dir string, i int, kind string, permute bool) ([]string, int) {
+	perm := rand.New(rand.NewSource(int64(i)*13 + 7))
+	suffix := "a"
+	if permute {
+		suffix = "b"
+	}
+	total := 0
+	var files []string
+	write := func(f int, blocks [][]string) {
+		// a block = configuration lines (those ending in a colon-value, kept in place) followed by benchmark lines
+		var sb strings.Builder
+		for _, blk := range blocks {
+			var head, lines []string
+			for _, l := range blk {
+				if strings.HasPrefix(l, "Benchmark") {
+					lines = append(lines, l)
+				} else {
+					head = append(head, l)
+				}
+			}
+			if permute {
+				perm.Shuffle(len(lines), func(a, b int) { lines[a], lines[b] = lines[b], lines[a] })
+			}
+			for _, l := range head {
+				sb.WriteString(l + "\n")
+			}
+			sb.WriteString("\n")
+			for _, l := range lines {
+				sb.WriteString(l + "\n")
+			}
+			sb.WriteString("\n")
+			total += len(head) + len(lines) + 2
+		}
+		p := filepath.Join(dir, fmt.Sprintf("big%d-%d%s.txt", i, f, suffix))
+		os.WriteFile(p, []byte(sb.String()), 0o644)
+		files = append(files, p)
+	}
+	switch kind {
+	case "names":
+		k := 1030 + rng.Intn(570)
+		words := []string{"Encode", "Decode", "Parse", "Walk", "Sum", "Sort", "Hash", "Copy"}
+		name := func(j int) string {
+			nm := fmt.Sprintf("%s%d", words[j%len(words)], j)
+			if j%3 == 0 {
+				nm += fmt.Sprintf("/k=%d", j%7)
+			}
+			if j%4 == 0 {
+				nm += "-8"
+			}
+			return nm
+		}
+		for f := 0; f < 2; f++ {
+			passes := 3 + rng.Intn(2)
+			var blk []string
+			blk = append(blk, "goos: linux", "pkg: p")
+			for ps := 0; ps < passes; ps++ {
+				for j := 0; j < k; j++ {
+					if f == 1 && j%11 == 5 {
+						continue // the second file lacks some benchmarks
+					}
+					blk = append(blk, fmt.Sprintf("Benchmark%s %d %d ns/op %d B/op", name(j), 100+ps, 1000+j%97+rng.Intn(40)+50*f, 64*(1+j%3)))
+				}
+			}
+			write(f, [][]string{blk})
+		}
+	case "sweep":
+		runs := 1030 + rng.Intn(370)
+		names := []string{"Alpha", "Beta/k=1", "Beta/k=2", "Gamma-8", "Delta/x=y-4"}
+		for f := 0; f < 2; f++ {
+			var blocks [][]string
+			for ru := 0; ru < runs; ru++ {
+				blk := []string{fmt.Sprintf("run: %d", ru)}
+				if ru%100 == 0 {
+					blk = append([]string{"goos: linux", fmt.Sprintf("commit: c%02d", ru/100)}, blk...)
+				}
+				for j, nm := range names {
+					if (ru+j)%9 == 8 {
+						continue
+					}
+					blk = append(blk, fmt.Sprintf("Benchmark%s %d %d ns/op", nm, 100, 1000+10*j+rng.Intn(60)+30*f))
+				}
+				blocks = append(blocks, blk)
+			}
+			write(f, blocks)
+		}
+	case "units":
+		// 30-45 benchmarks with 1..70 runs each (every sample size once), each line with sec/op and three of
+		// 90 custom units with scale prefixes (process-wide caches keyed by sample size and by unit)
+		nn := 30 + rng.Intn(16)
+		unit := func(k int) string { return fmt.Sprintf("%s/w%d", []string{"ns", "MB", "us", "KB", "ms", "x"}[k%6], k) }
+		for f := 0; f < 2; f++ {
+			blk := []string{"goos: linux", "pkg: p"}
+			for ps := 0; ps < 70; ps++ {
+				for j := 0; j < nn; j++ {
+					if ps > (j*13+f*5)%70 {
+						continue
+					}
+					nm := fmt.Sprintf("U%d", j)
+					if j%3 == 0 {
+						nm += fmt.Sprintf("/k=%d", j%4)
+					}
+					l := fmt.Sprintf("Benchmark%s %d %d ns/op", nm, 100+ps, 1000+7*j+rng.Intn(50)+20*f)
+					for q := 0; q < 3; q++ {
+						l += fmt.Sprintf(" %d %s", 10+rng.Intn(90), unit((j*3+q*30+ps%2)%90))
+					}
+					blk = append(blk, l)
+				}
+			}
+			write(f, [][]string{blk})
+		}
+	case "grid":
+		nn := 30 + rng.Intn(16)
+		for f := 0; f < 2; f++ {
+			var blocks [][]string
+			blocks = append(blocks, []string{"goos: linux", "k0: x", "k1: x", "k2: x", "k3: x"})
+			maxRuns := 0
+			runsOf := make([]int, nn)
+			for j := range runsOf {
+				runsOf[j] = 3 + rng.Intn(10)
+				if (j*7+f*3)%5 == 0 {
+					runsOf[j] = 90 + rng.Intn(120)
+				}
+				if runsOf[j] > maxRuns {
+					maxRuns = runsOf[j]
+				}
+			}
+			for ru := 0; ru < maxRuns; ru++ {
+				// one block per (run, varying key): the benchmarks whose key k<v> varies are measured with k<v> = v<ru%3>
+				for v := 0; v < 4; v++ {
+					blk := []string{fmt.Sprintf("run: %d", ru)}
+					for k := 0; k < 4; k++ {
+						val := "x"
+						if k == v {
+							val = fmt.Sprintf("v%d", ru%3)
+						}
+						blk = append(blk, fmt.Sprintf("k%d: %s", k, val))
+					}
+					for j := 0; j < nn; j++ {
+						if (j+f)%4 != v || ru >= runsOf[j] {
+							continue
+						}
+						blk = append(blk, fmt.Sprintf("BenchmarkG%d %d %d ns/op %d B/op", j, 100, 1000+10*j+rng.Intn(80)+40*f, 64*(1+rng.Intn(3))))
+					}
+					if len(blk) > 5 {
+						blocks = append(blocks, blk)
+					}
+				}
+			}
+			write(f, blocks)
+		}
+	}
+	return files, total
+}
+
+type tpRep struct {
+	Runs     int      `json:"runs"`
+	Inputs   int      `json:"inputs"`
+	Failures []string `json:"failures"`
+	Sample   string   `json:"sample"`
+	Lines    int      `json:"lines"`
+}
+
+// tpRepeatInput: one set of input files (and the same files with the benchmark lines of every
+// configuration block permuted): byte-identical text and CSV over repetitions and GOMAXPROCS
+// values for each flag set; cell contents and warnings invariant under the permutation.
+func tpRepeatInput(bin string, r *tpRep, what string, files, files2 []string, gps []string, flagsets, permFlagsets [][]string) error {
+	r.Inputs++
+	for _, flags := range flagsets {
+		for _, format := range []string{"text", "csv"} {
+			var ref []byte
+			for k, gp := range gps {
+				so, se, err := tpBenchstat(bin, append(append([]string{"-format", format}, flags...), files...), append(os.Environ(), "GOMAXPROCS="+gp))
+				out := []byte(so + se)
+				if err == errTpTimeout {
+					r.Failures = append(r.Failures, fmt.Sprintf("%s flags %v format %s: benchstat did not terminate (20 s / 8 GB) at GOMAXPROCS=%s; files %v", what, flags, format, gp, files))
+					break
+				}
+				if err != nil {
+					if _, isExit := err.(*exec.ExitError); isExit {
+						// the tool gives up on (or crashes on) well-formed benchmark text
+						r.Failures = append(r.Failures, fmt.Sprintf("%s flags %v format %s: benchstat failed at GOMAXPROCS=%s: %v: %s", what, flags, format, gp, err, tpTail(se, 600)))
+						break
+					}
+					return fmt.Errorf("benchstat: %v\n%s", err, tpTail(string(out), 2000))
+				}
+				r.Runs++
+				if k == 0 {
+					ref = out
+					if r.Sample == "" {
+						r.Sample = tpTail(string(out), 4000)
+					}
+				} else if !bytes.Equal(ref, out) {
+					r.Failures = append(r.Failures, fmt.Sprintf("%s flags %v format %s: run %d (GOMAXPROCS=%s) differs from the first run: %s", what, flags, format, k, gp, tpFirstDiff(string(ref), string(out))))
+				}
+			}
+		}
+	}
+	for _, flags := range permFlagsets {
+		run := func(fs []string) (string, string, error) {
+			return tpBenchstat(bin, append(append([]string{"-format", "csv"}, flags...), fs...), nil)
+		}
+		a, wa, err1 := run(files)
+		b, wb, err2 := run(files2)
+		if err1 == errTpTimeout || err2 == errTpTimeout {
+			r.Failures = append(r.Failures, fmt.Sprintf("%s flags %v: benchstat did not terminate (20 s / 8 GB)", what, flags))
+			continue
+		}
+		if err1 != nil || err2 != nil {
+			_, x1 := err1.(*exec.ExitError)
+			_, x2 := err2.(*exec.ExitError)
+			if x1 || x2 {
+				r.Failures = append(r.Failures, fmt.Sprintf("%s flags %v: benchstat failed: %v %v: %s %s", what, flags, err1, err2, tpTail(wa, 300), tpTail(wb, 300)))
+				continue
+			}
+			return fmt.Errorf("benchstat %v: %v %v", flags, err1, err2)
+		}
+		r.Runs += 2
+		if d := tpCellDiff(a, b, files, files2); d != "" {
+			r.Failures = append(r.Failures, fmt.Sprintf("%s flags %v: permuting result lines changed cell content: %s", what, flags, d))
+		}
+		if d := tpCellDiff(tpWarnings(a, wa), tpWarnings(b, wb), files, files2); d != "" {
+			r.Failures = append(r.Failures, fmt.Sprintf("%s flags %v: permuting result lines changed a cell's warnings: %s", what, flags, d))
+		}
+	}
+	return nil
+}
+
+func tpTail(s string, n int) string {
+	if len(s) > n {
+		return "..." + s[len(s)-n:]
+	}
+	return s
 }
 
 var errTpTimeout = errors.New("timeout")
